@@ -9,6 +9,43 @@ pub(crate) fn ensure_encodable(oid: &[u64]) -> Result<(), Error> {
 	}
 }
 
+/// Decodes the components of a parsed OID.
+///
+/// Used instead of the parser's own component iterator, which mis-decodes a first
+/// subidentifier that is longer than one byte (OIDs starting with 2.48 or higher, e.g. 2.999).
+#[cfg(feature = "x509-parser")]
+pub(crate) fn components(oid: &x509_parser::der_parser::asn1_rs::Oid<'_>) -> Option<Vec<u64>> {
+	let mut subidentifiers = Vec::new();
+	let mut current = 0u64;
+	let mut pending = false;
+	for byte in oid.as_bytes() {
+		if current > u64::MAX >> 7 {
+			return None;
+		}
+		current = current << 7 | u64::from(byte & 0x7f);
+		pending = byte & 0x80 != 0;
+		if !pending {
+			subidentifiers.push(current);
+			current = 0;
+		}
+	}
+	let (first, rest) = subidentifiers.split_first()?;
+	if pending {
+		return None;
+	}
+	let (arc0, arc1) = match first {
+		0..=39 => (0, *first),
+		40..=79 => (1, first - 40),
+		_ => (2, first - 80),
+	};
+	Some(
+		[arc0, arc1]
+			.into_iter()
+			.chain(rest.iter().copied())
+			.collect(),
+	)
+}
+
 /// pkcs-9-at-extensionRequest in [RFC 2985](https://www.rfc-editor.org/rfc/rfc2985#appendix-A)
 pub(crate) const PKCS_9_AT_EXTENSION_REQUEST: &[u64] = &[1, 2, 840, 113549, 1, 9, 14];
 
